@@ -349,7 +349,10 @@ StepEv ==
                  /\ paidVal' = [paidVal EXCEPT ![e] = @ \cup {h \in Hosts : preSt[h].acc # 2 /\ postSt[h].acc = 2}]
                  /\ paidDisc' = [paidDisc EXCEPT ![e] = @ \cup {h \in Hosts : ~preSt[h].disc /\ postSt[h].disc}]
             ELSE UNCHANGED <<raw, abs, steps, paidVal, paidDisc>>
-       /\ prev' = [prev EXCEPT ![e] = IF ev.ev = "genstep"
+       \* a look-ahead from ANOTHER state (pre_rows non-empty) between generative_step(current) and step() does not
+       \* break the pair: the environment's own state has not moved
+       /\ prev' = [prev EXCEPT ![e] = IF ev.ev = "genstep" /\ Len(ev.pre_rows) > 0 THEN @
+                    ELSE IF ev.ev = "genstep"
                     THEN [valid |-> TRUE, pre |-> preSt, a |-> a, luck |-> E.luck, u |-> ev.u,
                           res |-> E.res, post |-> postSt, postRows |-> E.postRow,
                           reward |-> E.reward, term |-> E.term, aux |-> E.aux, obs |-> E.obs]
